@@ -9,7 +9,7 @@ Oracle: plain Python `del` on an identically built copy.
 """
 import itertools
 
-from glom import glom, delete, Delete, Path, T, S, GlomError, PathAccessError, PathDeleteError
+from glom import glom, delete, Delete, Path, T, S, Spec, GlomError, PathAccessError, PathDeleteError
 
 from .. import mutref as MR
 from ..engine import R, Sub
@@ -203,6 +203,68 @@ def gen_empty_segments(ops=('delete',)):
             if segs != ('',)]        # the empty TEXT is the empty path, not a path with one empty segment
 
 
+# ---------------------------------------------------------------------------
+# keys given as T / Spec expressions (evaluated against the target, like in a read), also as the LAST segment
+
+def dyn_target():
+    return {'key': 'x', 'idx': 1, 'first': 'a', 'a': {'x': 5, 'y': 6}, 'l': [10, 20, 30], 'o': MR.Obj(x=1)}
+
+
+DYN_PATHS = {
+    # name -> (path builder, plain-Python parent getter, key getter)
+    'last-key-from-T': (lambda: T['a'][T['key']], lambda t: t['a'], lambda t: t['key']),
+    'last-index-from-T': (lambda: T['l'][T['idx']], lambda t: t['l'], lambda t: t['idx']),
+    'last-key-from-Spec': (lambda: T['a'][Spec('key')], lambda t: t['a'], lambda t: t['key']),
+    'last-key-from-nested-T': (lambda: T['a'][T['a']['x'] if False else T['key']], lambda t: t['a'], lambda t: t['key']),
+    'middle-key-from-T': (lambda: T[T['first']]['y'], lambda t: t[t['first']], lambda t: 'y'),
+    'both-from-T': (lambda: T[T['first']][T['key']], lambda t: t[t['first']], lambda t: t['key']),
+    'in-Path': (lambda: Path('a', T[T['key']]), lambda t: t['a'], lambda t: t['key']),
+    'last-key-missing-name': (lambda: T['a'][T['nokey']], None, None),
+    'root-level-key-from-T': (lambda: T[T['first']], lambda t: t, lambda t: t['first']),
+}
+
+
+def run_dynamic_keys(case):
+    from glom import assign, Assign, Spec
+    op, pname, style = case
+    mkpath, parent_of, key_of = DYN_PATHS[pname]
+    ref_t, t = dyn_target(), dyn_target()
+    path = mkpath()
+    if parent_of is None:
+        want = 'error'
+    else:
+        want = 'ok'
+        if op == 'delete':
+            del parent_of(ref_t)[key_of(ref_t)]
+        else:
+            parent_of(ref_t)[key_of(ref_t)] = 'NEW'
+    before = MR.canon(t)
+    try:
+        if op == 'delete':
+            res = delete(t, path) if style == 'func' else glom(t, Delete(path))
+        else:
+            res = assign(t, path, 'NEW') if style == 'func' else glom(t, Assign(path, 'NEW'))
+        got = 'ok'
+    except Exception as e:
+        got, err = 'error', e
+    where = {'op': op, 'path': repr(path), 'form': style}
+    if want == 'ok':
+        if got != 'ok':
+            return R({'expected': repr(ref_t), 'observed': 'raised %r' % (err,), **where}, 'dynamic-key')
+        if MR.canon(t) != MR.canon(ref_t):
+            return R({'expected': repr(ref_t), 'observed': repr(t), **where}, 'dynamic-key')
+        if op == 'assign' and glom(t, path) != 'NEW':
+            return R({'expected': "reading the path back yields 'NEW'", 'observed': repr(glom(t, path)), **where}, 'dynamic-key')
+    else:
+        if got == 'ok' or MR.canon(t) != before:
+            return R({'expected': 'an error, target unchanged', 'observed': '%s, target %r' % (got, t), **where}, 'dynamic-key')
+    return R(None, '%s:%s' % (op, want), nontrivial=True, steps=1, tags={op, pname})
+
+
+def gen_dynamic_keys(ops):
+    return [[op, p, style] for op in ops for p in DYN_PATHS for style in ('func', 'spec')]
+
+
 def gen_reuse(tier):
     names = ['dict', 'list', 'obj', 'none', 'dict2']
     return [[path, ignore, list(seq)] for path in ('a.0', 'a.k', 'a.1') for ignore in (False, True) for n in (2, 3) for seq in itertools.product(names, repeat=n)]
@@ -221,6 +283,11 @@ def subs(tier, only=None):
         out.append(Sub('delete-reuse', gen_reuse(tier), run_reuse,
                        rule='case = (path, ignore_missing, sequence of 2-3 targets whose parent is a dict / list / object / None): ONE Delete object applied to '
                             'each in turn equals a fresh Delete every time', min_nontrivial=100, min_outcomes=1))
+    if only in (None, 'dynamic-keys'):
+        out.append(Sub('dynamic-keys', gen_dynamic_keys(('delete',)), run_dynamic_keys,
+                       rule='case = (path whose last / middle / only key is a T or Spec expression evaluated against the target, function | spec form): the effect '
+                            'equals del with the evaluated key',
+                       min_nontrivial=15, min_outcomes=2, required_tags=['last-key-from-T', 'middle-key-from-T']))
     if only in (None, 'empty-segments'):
         out.append(Sub('empty-segments', gen_empty_segments(('delete',)), run_empty_segments,
                        rule="case = (path text over the segments '' and 'k', 1-3 segments, function | spec form) on a tree whose every node has the keys '' and 'k': "
